@@ -22,6 +22,7 @@ type baseCockpit struct {
 	w       io.Writer
 	tasks   []*task.Task
 	mu      sync.Mutex
+	doneMu  sync.Mutex
 	spinner *spinner.Spinner
 	charSet int
 	closeCh chan bool
@@ -71,26 +72,32 @@ func (b *baseCockpit) add(t *task.Task) {
 
 func (b *baseCockpit) remove(t *task.Task) {
 	b.mu.Lock()
-	defer b.mu.Unlock()
-
 	for k, v := range b.tasks {
 		if v == t {
 			b.tasks = append(b.tasks[:k], b.tasks[k+1:]...)
 		}
 	}
+	s := b.spinner
+	b.mu.Unlock()
 
-	if b.spinner == nil {
+	if s == nil {
 		// no task has started its output yet (this one was skipped or failed before its first command)
 		return
 	}
+
+	// The spinner calls PreUpdate - which takes b.mu - while it holds its own lock, and Restart
+	// needs that lock: b.mu must not be held here. The messages of tasks that finish together are
+	// serialised by a lock of their own.
+	b.doneMu.Lock()
+	defer b.doneMu.Unlock()
 
 	var mark = aurora.Green("✔")
 	if t.Errored {
 		mark = aurora.Red("✗")
 	}
-	b.spinner.FinalMSG = fmt.Sprintf("%s Finished %s in %s\r\n", mark, aurora.Bold(t.Name), t.Duration())
-	b.spinner.Restart()
-	b.spinner.FinalMSG = ""
+	s.FinalMSG = fmt.Sprintf("%s Finished %s in %s\r\n", mark, aurora.Bold(t.Name), t.Duration())
+	s.Restart()
+	s.FinalMSG = ""
 }
 
 func newCockpitOutputWriter(t *task.Task, w io.Writer, close chan bool) *cockpitOutputDecorator {
